@@ -355,6 +355,55 @@ def h_actions(ctx, host, sel):
 
 
 # ---- O3: the free-form match -------------------------------------------------------------------
+def h_match_forms(ctx, embed):
+  """ofp_match built through its public attribute API with the address fields given in every form the class accepts (EthAddr object / raw 6
+  bytes; IPAddr object / dotted text / (address, prefix-bits) tuple / CIDR text) - forms are solver-chosen, the address bytes symbolic where the form
+  allows: the encoding equals that of the canonical EthAddr/IPAddr form (whose layout O3_match decides), decoding yields an equal match, also when the
+  match travels inside a flow_mod / flow_removed."""
+  of = ctx.pox('pox.openflow.libopenflow_01'); addrs = ctx.pox('pox.lib.addresses')
+  from props import env
+  src = ctx.bytes('dl_src', 6); dst = ctx.bytes('dl_dst', 6)
+  ctx.assume(ctx.Not(ctx.Eq(src, dst)))
+  fs = bool(ctx.bool('dl_src_is_raw_bytes')); fd = bool(ctx.bool('dl_dst_is_raw_bytes'))
+  have_src = bool(ctx.bool('dl_src_given')); have_dst = bool(ctx.bool('dl_dst_given'))
+  ipform = int(ctx.int('nw_form', 0, 3))
+  nws = [10, 1, 2, 0]; nwd = [192, 168, 7, 9]; bits = 24
+  def build(canonical):
+    m = of.ofp_match()
+    m.in_port = 3; m.dl_type = 0x0800; m.nw_proto = 6; m.tp_src = 1234; m.tp_dst = 80
+    if have_src: m.dl_src = addrs.EthAddr(src) if (canonical or not fs) else (src if ctx.sym else bytes(src))
+    if have_dst: m.dl_dst = addrs.EthAddr(dst) if (canonical or not fd) else (dst if ctx.sym else bytes(dst))
+    if canonical or ipform == 0:
+      m.nw_src = (addrs.IPAddr(bytes(nws)), bits); m.nw_dst = addrs.IPAddr(bytes(nwd))
+    elif ipform == 1:
+      m.nw_src = ('10.1.2.0', bits); m.nw_dst = '192.168.7.9'
+    elif ipform == 2:
+      m.nw_src = '10.1.2.0/24'; m.nw_dst = '192.168.7.9/32'
+    else:
+      m.set_nw_src(addrs.IPAddr('10.1.2.0'), bits); m.set_nw_dst('192.168.7.9', 32)
+    return m
+  ref = build(True); m = build(False)
+  def wire(x):
+    if embed == 'flow_mod': return of.ofp_flow_mod(match=x, xid=7, actions=[of.ofp_action_output(port=2)]).pack()
+    if embed == 'flow_removed': return of.ofp_flow_removed(match=x, xid=7).pack()
+    return x.pack()
+  b_ref = wire(ref); b = wire(m)
+  ctx.check('same length as the canonical form', len(b) == len(b_ref))
+  if len(b) == len(b_ref): ctx.check('same bytes as the canonical form', ctx.Eq(b, b_ref))
+  if embed == 'match':
+    m2 = of.ofp_match(); off = m2.unpack(b, 0)
+    ctx.check('decode consumes 40 bytes', off == 40)
+    ctx.check('decoded match equals the canonical one', m2 == ref)
+    ctx.check('decoded match equals the original', m2 == m)
+  else:
+    cls = of.ofp_flow_mod if embed == 'flow_mod' else of.ofp_flow_removed
+    off, o2 = cls.unpack_new(b)
+    ctx.check('decode consumes the message', off == len(b))
+    ctx.check('decoded embedded match equals the canonical one', o2.match == ref)
+  if fs or fd: ctx.witness('raw-bytes-form')
+  ctx.witness('roundtrip')
+
+
 def h_match(ctx, flow_mod, tied=False):
   of = ctx.pox('pox.openflow.libopenflow_01')
   addrs = ctx.pox('pox.lib.addresses')
@@ -657,6 +706,8 @@ def obligations(tier):
     Obligation('O4_nx_messages', h_nx_msg, [dict(name=k) for k in ('nx_flow_mod_table_id', 'nx_packet_in_format', 'nx_role_request', 'nx_async_config', 'nx_flow_mod:0:0', 'nx_flow_mod:1:1',
                                                             'nx_flow_mod:2:0', 'nx_flow_mod:2:1', 'nxt_packet_in:0:0', 'nxt_packet_in:1:3', 'nxt_packet_in:2:1')],
                witnesses=('roundtrip',), desc='Nicira vendor messages: header, vendor id, decode == original, re-encode identical'),
+    Obligation('O3_match_forms', h_match_forms, [dict(embed=e) for e in ('match', 'flow_mod', 'flow_removed')], witnesses=('roundtrip', 'raw-bytes-form'),
+               desc='ofp_match built through the public API with every accepted address input form == the canonical form; decode equality'),
     Obligation('O3_match', h_match, [dict(flow_mod=False, tied=not thorough), dict(flow_mod=True, tied=not thorough)], witnesses=('match',), split=16,
                desc='ofp_match: all fields x all wildcard words vs spec layout with prerequisite zeroing; normal-form round trip'),
   ]
